@@ -15,6 +15,8 @@ MCInit ==
   /\ payload \in {0, 2}
   /\ (payload > 0 => (reqs # <<>> /\ reqs[Len(reqs)].k = "upgrade"))
   /\ pipelined \in BOOLEAN
+  /\ greet \in BOOLEAN
+  /\ (greet => (mode = "resolver" /\ reqs # <<>> /\ reqs[Len(reqs)] = Req("upgrade", "B")))
   /\ abandon \in BOOLEAN
   /\ (abandon => (payload = 0 /\ reqs # <<>>))
   /\ upEnd \in {"client", "service"}
@@ -26,6 +28,6 @@ MCNext == BNext \/ Term
 MCSpec == MCInit /\ [][MCNext]_bvars
 
 EmitCase == (Emit /\ Done) =>
-  PrintT(<<"REPLAY", ToJson([mode |-> mode, reqs |-> reqs, payload |-> payload, pipelined |-> pipelined, abandon |-> abandon, upEnd |-> upEnd, bye |-> bye, out |-> out,
+  PrintT(<<"REPLAY", ToJson([mode |-> mode, reqs |-> reqs, payload |-> payload, pipelined |-> pipelined, abandon |-> abandon, greet |-> greet, hello |-> hello, upEnd |-> upEnd, bye |-> bye, out |-> out,
                              got |-> [a |-> got["A"], b |-> got["B"], r |-> got["R"]], rawToSvc |-> rawToSvc, exit |-> exit])>>)
 =============================================================================
